@@ -1046,6 +1046,11 @@ func (fr *frame) loopSpec(h *ssa.BasicBlock) *LoopSpec {
 			out.Increases = append(out.Increases, c)
 		}
 	}
+	for _, c := range ls.Steps {
+		if fr.f.e.active(c.Tags) {
+			out.Steps = append(out.Steps, c)
+		}
+	}
 	return out
 }
 
@@ -1285,6 +1290,18 @@ func (fr *frame) loopBackEdge(from, h *ssa.BasicBlock) {
 			continue
 		}
 		f.oblige(est, fmt.Sprintf("%s#loop%d:preserved:%s", fnShortName(fr.fn), fr.loopOrd[h], clauseLabel(inv)), "invariant-preserved", inv.Tags, v, inv.Src, inv.Line)
+	}
+	for _, stp := range ls.Steps {
+		envH := fr.specEnv(fr.headerHeap[h], fr.oldHeap, nil)
+		envH.addVars(fr.localEnvAt(h, nil, fr.headerHeap[h]))
+		env.headEnv = envH
+		v, err := env.evalBool(stp.E)
+		env.headEnv = nil
+		if err != nil {
+			f.fail("%s: loop %d step: %v", stp.Line, fr.loopOrd[h], err)
+			continue
+		}
+		f.oblige(est, fmt.Sprintf("%s#loop%d:step:%s", fnShortName(fr.fn), fr.loopOrd[h], clauseLabel(stp)), "loop-step", stp.Tags, v, stp.Src, stp.Line)
 	}
 	for _, inc := range ls.Increases {
 		envH := fr.specEnv(fr.headerHeap[h], fr.oldHeap, nil)
@@ -2520,7 +2537,7 @@ func bareIdents(e Expr, bound map[string]bool, out map[string]bool) {
 		bareIdents(x.X, bound, out)
 		bareIdents(x.I, bound, out)
 	case *ECall:
-		if id, ok := x.Fn.(*EIdent); ok && (id.Name == "atlock" || id.Name == "old") {
+		if id, ok := x.Fn.(*EIdent); ok && (id.Name == "atlock" || id.Name == "old" || id.Name == "athead") {
 			return
 		}
 		for _, a := range x.Args {
